@@ -33,7 +33,7 @@ Public API
         .comp_value(i), .comp_grad(i), .comp_hess(i)            60-digit mpmath values per component
         .majorant(elem, dirs, radii)                            M(r) >= sup |f_elem| on the polydisc
         .scale(order, elem, dirs, r0, r1)                       local scale S_order (see below)
-        .noise(elem)                                            argument-rounding conditioning term
+        .noise(elem), .cond(elem, dirs)                         argument-rounding terms for the floor
         .sup_box(elem, d)                                       polynomial part: sup |f| on the box |s_l| <= d_l
         .ops(), .negative_base()                                 classification of findings
     MVDomainError                                               x outside the certified domain
@@ -65,7 +65,10 @@ difference quotient with steps in [r0, r1].
 The rounding of the ridge arguments themselves (a_r . x + b0_r is a floating-point sum of magnitude
 argmag_r = sum_l |a_rl x_l| + |b0_r|) perturbs each sample of f by about eps * noise(e),
     noise(e) = sum_combos |coef| sum_terms |c| sum_{r in f} argmag_r |g_r'(t0_r)| prod_{r' != r} |g_r'(t0_r')|,
-which the checks put into their floor as  eps * noise / h_min^order.
+which the checks put into their floor as  eps * noise / h^order (h the step the library reports having
+used, or h_min); the *true* derivative moves by about eps * cond(e, dirs),
+    cond = sum over ridge factors of argmag_r |d/dt_r (exact partial derivative)|
+(the only argument-rounding effect for the complex-step rules, which form no difference).
 """
 import math
 
@@ -391,7 +394,7 @@ class MVAnalysis(object):
                 raise MVDomainError('jet oracle undefined for ridge factor %d: %s' % (r, exc))
             root = jets[-1]
             self.factors[r] = dict(a=a, absa=[abs(v) for v in a], a1=sum(abs(v) for v in a), t0=t0, an=an,
-                                   g0=root.c[0], g1=root.c[1], g2=2 * root.c[2],
+                                   g0=root.c[0], g1=root.c[1], g2=2 * root.c[2], g3=6 * root.c[3],
                                    argmag=math.fsum([abs(al * xl) for al, xl in zip(a, self.x)]
                                                     + [abs(fac['b0'])]),
                                    cache={})
@@ -595,6 +598,34 @@ class MVAnalysis(object):
                         if q != p:
                             v *= abs(float(f2['g0']))
                     tot += abs(coef) * v
+        if self.wrap is not None:
+            tot *= abs(self.wrap[0])
+        return tot
+
+    def cond(self, elem, dirs):
+        """sum_r argmag_r |d/dt_r of the exact partial derivative in the directions dirs| (abs-sums): the
+        sensitivity of the *true* derivative to the rounding of the ridge arguments (multiply by eps).
+        dirs has one entry (first derivative) or two (second derivative)."""
+        order = len(dirs)
+        tot = 0.0
+        for coef, i in self.elements[elem]:
+            for t in self.prog['comps'][i]['terms']:
+                fs = [self.factors[r] for r in t['f']]
+                der = [[abs(float(f[k])) for k in ('g0', 'g1', 'g2', 'g3')] for f in fs]
+                aa = [[f['absa'][d] for d in dirs] for f in fs]
+                c = abs(coef) * abs(t['c'])
+                if len(fs) == 1:
+                    tot += c * fs[0]['argmag'] * der[0][order + 1] * math.prod(aa[0])
+                    continue
+                (d1, d2), (a1, a2) = der, aa
+                if order == 1:
+                    s1 = d1[2] * a1[0] * d2[0] + d1[1] * d2[1] * a2[0]
+                    s2 = d1[1] * a1[0] * d2[1] + d1[0] * d2[2] * a2[0]
+                else:
+                    mix = a1[0] * a2[1] + a1[1] * a2[0]
+                    s1 = d1[3] * a1[0] * a1[1] * d2[0] + d1[2] * d2[1] * mix + d1[1] * d2[2] * a2[0] * a2[1]
+                    s2 = d1[2] * a1[0] * a1[1] * d2[1] + d1[1] * d2[2] * mix + d1[0] * d2[3] * a2[0] * a2[1]
+                tot += c * (fs[0]['argmag'] * s1 + fs[1]['argmag'] * s2)
         if self.wrap is not None:
             tot *= abs(self.wrap[0])
         return tot
